@@ -181,7 +181,83 @@ def capture_table_dates(ctx, tz):
                  dict(capture="table", tz=tz), ident="capture table dates (time zone)")
 
 
+def whole_files(ctx):
+    """layout-conformant FILES produced by the independent encoder, as other software may write them — table listing the blocks
+    in another order than their data lie in the file, unused slots between live entries, junk between the blocks and in every
+    don't-care byte, 1…20 slots — opened through Tdf: slot i of `Tdf.entries` must carry the fields of slot i of the file,
+    `get_block(i)` must decode the bytes slot i points at, `get_block(type)` the block of that type."""
+    import struct
+    from basictdf import Tdf
+    from basictdf.tdfBlock import BlockType
+    rng = ctx.rng
+    kind_of = {v: k for k, v in A.BLOCKTYPE.items()}
+    d = tempfile.mkdtemp(prefix="vtdf")
+    files = []
+    try:
+        for k in range(ctx.n(120, 1500)):
+            style = rng.choice(["permuted", "permuted", "gappy", "n5", "hole"])
+            if style == "hole":
+                nlive, w = rng.choice([2, 3, 4]), rng.choice([1, 2])
+                n = nlive + w + rng.choice([0, 1, 3])
+                data, desc = C.mkfile(n, [C.opaque(rng, t) for t in rng.sample(C.OPAQUE_TYPES, nlive)], hole_at=rng.randrange(0, nlive), hole_width=w), f"hole(N={n})"
+            else:
+                data, desc = C.start_file(rng, style)
+            # junk where the layout does not care: header reserved words, entry reserved word, comment bytes after the NUL
+            b = bytearray(data)
+            n = struct.unpack_from("<i", b, 20)[0]
+            if rng.random() < 0.6:
+                b[24:32] = bytes(rng.randrange(256) for _ in range(8))
+                b[44:64] = bytes(rng.randrange(256) for _ in range(20))
+                for i in range(n):
+                    base = 64 + 288 * i
+                    b[base + 28:base + 32] = bytes(rng.randrange(256) for _ in range(4))
+                    nul = bytes(b[base + 32:base + 288]).find(b"\0")
+                    for j in range(base + 32 + nul + 1, base + 288):
+                        b[j] = rng.choice([0x81, 0xFF, 0x41, 0x00])
+                    if b[base:base + 4] == b"\0\0\0\0" and rng.random() < 0.5:
+                        struct.pack_into("<I", b, base + 4, rng.choice([1, 7, 2 ** 32 - 1]))      # an unused slot may carry any format code
+            data = bytes(b)
+            p = os.path.join(d, f"w{k}.tdf")
+            open(p, "wb").write(data)
+            ref = []
+            for i in range(n):
+                base = 64 + 288 * i
+                typ, fmt, off, size, cd, md, ad = struct.unpack_from("<IIiiiii", data, base)
+                ref.append((i, typ, fmt, off, size, cd, md, ad, data[base + 32:base + 288].split(b"\0")[0].decode("cp1252")))
+            rep = dict(file=data.hex() if len(data) < 20000 else None, desc=desc)
+            ctx.case(("whole-file", k, desc), nontrivial=sum(1 for e in ref if e[1]) >= 2, tags=("whole-file", style), sample=dict(file=desc))
+            try:
+                with Tdf(p) as t:
+                    got = [(i, e.type.value, int(e.format), int(e.offset), int(e.size), C.ts(e.creation_date), C.ts(e.last_modification_date), C.ts(e.last_access_date), e.comment)
+                           for i, e in enumerate(t.entries)]
+                    if got != ref:
+                        bad = next((i for i, (a, c) in enumerate(zip(got, ref)) if a != c), min(len(got), len(ref)))
+                        ctx.fail(f"{desc}: Tdf.entries[{bad}] = {got[bad] if bad < len(got) else None} but slot {bad} of the file holds {ref[bad] if bad < len(ref) else None}", rep,
+                                 ident="entries differ from the table of the file")
+                        continue
+                    for i, typ, fmt, off, size, *_ in ref:
+                        if typ in kind_of:
+                            kind = kind_of[typ]
+                            want = A.norm(A.absv(kind, A.klass(kind)._build(io.BytesIO(data[off:off + size]), fmt)))
+                            for key, how in ((i, f"get_block({i})"), (BlockType(typ), f"get_block({BlockType(typ).name})")):
+                                have = A.norm(A.absv(kind, t.get_block(key)))
+                                if have != want:
+                                    ctx.fail(f"{desc}: {how} does not return the block whose bytes slot {i} of the table points at", rep, ident="get_block reads another slot")
+                                    break
+            except Exception as ex:
+                ctx.fail(f"{desc}: a layout-conformant file cannot be read: {type(ex).__name__}: {ex}", rep, ident="whole file read raises")
+                continue
+            files.append((data, ref, desc))
+        for (data, ref, desc), fc in zip(files, C.file_checks([f[0] for f in files])):
+            me = [(j,) + tuple(e[:7]) + (A.text(e[7]),) for j, e in enumerate(fc["entries"])] if fc["readable"] else None
+            if me != ref:
+                ctx.diff("file.table", f"{desc}: the model's table differs from the independent parse", dict(desc=desc))
+    finally:
+        shutil.rmtree(d, ignore_errors=True)
+
+
 def run(ctx):
+    whole_files(ctx)
     n = ctx.n(900, 10000)
     for c0 in range(0, n, 2500):
         blocks_chunk(ctx, min(2500, n - c0))
